@@ -17,7 +17,7 @@ RULE = (
     "instance, type, nan), raise one of ValueError / custom Exception / KeyboardInterrupt / SystemExit / "
     "CancelledError / custom BaseException, signal no-result, or run for dur vs a `timeout` label given "
     "as int, float or str (below / equal / above); typed user labels; result-backend failures on a generated subset "
-    "of saves; A in 1..3. Oracle on what the recording result backend receives: #set_result per task id (0 for "
+    "of saves; messages that re-use the task id of an earlier message (redelivery); A in 1..3. Oracle on what the recording result backend receives: #set_result per task id (0 for "
     "no-result, else 1), is_err / return_value / type(error) as scripted (timeout => TimeoutError and the body is "
     "cancelled at enter+timeout; equal => either), result.labels == the message's typed labels, and after a failed "
     "save the message is still acked and every later message processed. "
@@ -38,6 +38,12 @@ LABELV = st.one_of(st.integers(-10**9, 10**9), st.text(max_size=5), st.booleans(
 def scenario() -> Any:
     def fin(d: Dict[str, Any]) -> Dict[str, Any]:
         msgs = cm.sort_msgs(d["msgs"])
+        for k, m in enumerate(msgs):
+            dup = m.pop("dup")
+            if dup is not None and k > 0:
+                m["dup_of"] = dup % k        # same task id as an earlier message: a redelivery / re-kick with the same id
+                if "dup_of" in msgs[m["dup_of"]]:
+                    m["dup_of"] = msgs[m["dup_of"]]["dup_of"]
         for m in msgs:
             rk = m.pop("rvkind")
             if rk == "json":
@@ -63,6 +69,7 @@ def scenario() -> Any:
         "rvkind": st.sampled_from(["json", "json", "obj", "default"]),
         "rv": JSONV, "rvobj": st.sampled_from(sorted(wh.OBJECTS)),
         "labels": st.dictionaries(st.sampled_from(["u1", "u2", "prio", "x-y", "Ключ"]), LABELV, max_size=3),
+        "dup": st.one_of(st.none(), st.none(), st.none(), st.none(), st.integers(0, 5)),
     })).map(lambda t: {**t[0], **t[1]})
     return st.fixed_dictionaries({
         "A": st.integers(1, 3),
@@ -111,6 +118,11 @@ def run_case(sc: Dict[str, Any]) -> Outcome:
         out.add("C07.d", f"only {len(taken)} of {len(specs)} messages taken")
     nontriv = False
     classes = set()
+    gid_of = {i: sp.get("dup_of", i) for i, sp in enumerate(specs)}
+    members: Dict[int, List[int]] = {}
+    for i, g in gid_of.items():
+        members.setdefault(g, []).append(i)
+    dup_groups = {g: m for g, m in members.items() if len(m) > 1}
     for i in taken:
         sp = specs[i]
         evs = pm.get(i, [])
@@ -124,6 +136,8 @@ def run_case(sc: Dict[str, Any]) -> Outcome:
             continue
         if kinds.count("ack") != 1:
             out.add("C07.d", f"message {i} acked {kinds.count('ack')} times (when_saved); events={kinds}")
+        if gid_of[i] in dup_groups:
+            continue    # executions sharing a task id (redelivery) are compared as a group below
         rs = by_id.get(i, [])
         if tie:
             classes.add("tie")
@@ -168,6 +182,32 @@ def run_case(sc: Dict[str, Any]) -> Outcome:
             exp_labels["timeout"] = to
         if not same(dict(r.labels), exp_labels):
             out.add("C07.c", f"message {i}: result.labels {short(dict(r.labels), 200)} != message labels {short(exp_labels, 200)}")
+    for g, mem in sorted(dup_groups.items()):
+        classes.add("duplicate_task_id")
+        nontriv = True
+        exp = []
+        undecided = False
+        for i in mem:
+            sp = specs[i]
+            to = sp.get("timeout")
+            is_async = sp["kind"] == "async"
+            if i not in taken:
+                undecided = True
+            elif is_async and to is not None and sp["dur"] == float(to):
+                undecided = True
+            elif is_async and to is not None and sp["dur"] > float(to):
+                exp.append((True, "TimeoutError"))
+            elif sp["out"] == "NoResult":
+                pass
+            elif sp["out"] == "ret":
+                exp.append((False, None))
+            else:
+                exp.append((True, wh.EXC[sp["out"]].__name__))
+        if undecided:
+            continue
+        got = [(bool(r.is_err), type(r.error).__name__ if r.error is not None else None) for r in by_id.get(g, [])]
+        if sorted(got, key=repr) != sorted(exp, key=repr):
+            out.add("C07.a", f"{len(mem)} executions share task id id{g} (redelivery): stored results {got}, expected one per execution: {exp}")
     sf = [n for n, e in enumerate(tr) if e[1] == "save_failed"]
     if sf:
         classes.add("save_failure")
